@@ -18,7 +18,7 @@ RULE = ("Hypothesis-generated pre-copy histories (<=8 ops: sets, single- and mul
         "succeeds, equality without shared mutable state at copy time, each side equals its own model afterwards, and each "
         "operation adds exactly its expected invocations to the log of the side it acted on and nothing to the other. "
         "Non-trivial = the pre-copy history created a per-instance Parameter copy, attached a sub-object or mutated a container "
-        "in place, and the post-copy history touches both sides; distinct = case hash.")
+        "in place, and the post-copy history touches both sides; distinct = case hash. Round 5: a subclass keeping an attribute in a slot of its own (an ancestor instance copied earlier or not), user watchers registered against the order of their precedences (their order is asserted on every side), the class default reassigned after the copies exist while the original holds an identical value of its own.")
 ASSUMPTIONS = [
     "log entries produced by one operation are compared as a multiset (the relative order of different methods is not claimed)",
     "importable model classes vlib.models_static.Par / ParNoSubDep / CSub",
